@@ -75,11 +75,11 @@ theorem r3Expr_value {σ : State} (hσ : StateOK σ) (op : R3) (rd rs rt : Reg) 
 
 /-- register-register ALU: addu, subu, and, or, xor, nor (with capstone's `move`/`negu` forms) -/
 theorem r3_correct {σ : State} (hσ : StateOK σ) (op : R3) (rd rs rt : Reg) (a : Nat) (f : Function)
-    (hl : liftI (.r3 op rd rs rt) a = some f) (hop : op ≠ .slt ∧ op ≠ .sltu ∧ op ≠ .movn ∧ op ≠ .movz) (n : Nat) :
+    (hl : liftI (.r3 op rd rs rt) a = some f) (hop : op ≠ .slt ∧ op ≠ .sltu ∧ op ≠ .movn ∧ op ≠ .movz ∧ op ≠ .mul) (n : Nat) :
     f.cfg.entry = some 0 ∧ ∃ σ', runGraph f (n + 2) ⟨0, 0, σ⟩ = .done σ' ∧
       Sim false σ σ' ((absState σ).w rd (r3 op ((absState σ).r rs) ((absState σ).r rt) ((absState σ).r rd))) := by
   have hl' : (r3Expr op rs rt).map (fun e => g1 a [.assign (rsc rd) e]) = some f := by
-    cases op <;> first | exact absurd rfl hop.1 | exact absurd rfl hop.2.1 | exact absurd rfl hop.2.2.1 | exact absurd rfl hop.2.2.2 | exact hl
+    cases op <;> first | exact absurd rfl hop.1 | exact absurd rfl hop.2.1 | exact absurd rfl hop.2.2.1 | exact absurd rfl hop.2.2.2.1 | exact absurd rfl hop.2.2.2.2 | exact hl
   cases he : r3Expr op rs rt with
   | none => rw [he] at hl'; cases hl'
   | some e =>
